@@ -28,7 +28,7 @@ import numpy as np
 
 from engine import build, shim
 
-LEAF_CLASSES = ["Affine", "Loc", "Scale", "TriangularAffine", "TriangularAffineScaled", "UserAffine", "UserShiftChain", "Exp", "SoftPlus", "Tanh", "LeakyTanh", "Identity", "Flip",
+LEAF_CLASSES = ["Affine", "Loc", "Scale", "TriangularAffine", "TriangularAffineScaled", "UserAffine", "UserShiftChain", "PartialNumpyMask", "Exp", "SoftPlus", "Tanh", "LeakyTanh", "Identity", "Flip",
                 "Permute", "RationalQuadraticSpline", "RationalQuadraticSplineOffCentre", "PlanarLeaky", "PlanarTanh", "AdditiveCondition", "Coupling",
                 "CouplingSpline", "MaskedAutoregressive", "MaskedAutoregressiveSpline", "MaskedAutoregressiveExp", "MaskedAutoregressiveWide",
                 "BlockAutoregressiveNetwork", "BlockAutoregressiveNetworkDeep",
@@ -77,6 +77,10 @@ def leaf(cls, shape, rs, regime, key):
         A[np.arange(d), np.arange(d)] = rs.uniform(0.5, 2.0, size=d) * mag
         # loc = 0: a location of order 1 added to A x of order 1e-22 would absorb x (ill-conditioning that cond(J) does not see)
         return bj.TriangularAffine(jnp.zeros(d), jnp.asarray(A), lower=(var < 2))
+    if cls == "PartialNumpyMask":    # index given as a NumPy boolean mask / NumPy integer array (host arrays are pytree leaves too)
+        inner = bj.Affine(jnp.asarray(rs.normal(size=2)), jnp.asarray(rs.uniform(0.5, 2.0, size=2)))
+        idx = [np.array([True, False, True]), np.array([2, 0]), np.array([False, True, True]), np.array([0, 1])][var % 4]
+        return bj.Partial(inner, idx, (3,))
     if cls == "UserAffine":          # a user's own AbstractBijection subclass
         from harness.userext import UserAffine
         return UserAffine(rs.normal(size=shape) * 0.5, rs.normal(size=shape))
@@ -133,7 +137,7 @@ def leaf(cls, shape, rs, regime, key):
     raise ValueError(cls)
 
 
-DEFAULT_SHAPE = {"TriangularAffine": (3,), "TriangularAffineScaled": (16,), "PlanarLeaky": (3,), "PlanarTanh": (3,), "Coupling": (3,), "CouplingSpline": (3,),
+DEFAULT_SHAPE = {"PartialNumpyMask": (3,), "TriangularAffine": (3,), "TriangularAffineScaled": (16,), "PlanarLeaky": (3,), "PlanarTanh": (3,), "Coupling": (3,), "CouplingSpline": (3,),
                  "MaskedAutoregressive": (3,), "MaskedAutoregressiveSpline": (3,), "BlockAutoregressiveNetwork": (2,),
                  "BlockAutoregressiveNetworkDeep": (2,), "MaskedAutoregressiveExp": (3,), "MaskedAutoregressiveWide": (12,),
                  "RationalQuadraticSpline": (), "RationalQuadraticSplineOffCentre": (), "Reshape": (2, 2), "VmapSpline": (3,)}
